@@ -8,9 +8,9 @@
 (* Shared = TRUE models the pre-fix code (every instance points at the     *)
 (* package default object): TLC refutes DefaultsIntact at depth 2.         *)
 (***************************************************************************)
-EXTENDS Integers, Sequences, FiniteSets, TLC
+EXTENDS Integers, Sequences, FiniteSets, TLC, Json
 
-CONSTANTS Shared, MaxInst
+CONSTANTS Shared, MaxInst, MaxSteps
 
 Opts == {"format", "indent", "noclobber", "fopt"}
 Vals == [format |-> {"cdx15", "spdx23"}, indent |-> {"2", "8"}, noclobber |-> {"true"}, fopt |-> {"v1", "v2"}]
@@ -21,10 +21,12 @@ Over(base, f) == [o \in DOMAIN base |-> IF o \in DOMAIN f THEN f[o] ELSE base[o]
 
 VARIABLES heap,    \* object id -> configuration record; object 0 is the package default
           insts,   \* sequence of [obj |-> object id, own |-> options given to the constructor]
-          used     \* format used by the last write, for the override clause
-vars == <<heap, insts, used>>
+          used,    \* format used by the last write, for the override clause
+          script   \* the calls made so far (simulation export; hidden from the exhaustive run by VIEW)
+vars == <<heap, insts, used, script>>
+view == <<heap, insts, used>>
 
-Init == heap = [i \in {0} |-> Defaults] /\ insts = <<>> /\ used = "none"
+Init == heap = [i \in {0} |-> Defaults] /\ insts = <<>> /\ used = "none" /\ script = <<[op |-> "Reset"]>>
 New(f) == /\ Len(insts) < MaxInst
           /\ IF Shared
              THEN /\ heap' = [heap EXCEPT ![0] = Over(heap[0], f)]   \* options write through the shared pointer
@@ -33,11 +35,16 @@ New(f) == /\ Len(insts) < MaxInst
                   /\ heap' = [i \in DOMAIN heap \cup {id} |-> IF i = id THEN Over(Defaults, f) ELSE heap[i]]
                   /\ insts' = Append(insts, [obj |-> id, own |-> f])
           /\ UNCHANGED used
+          /\ script' = Append(script, [op |-> "NewWriter", opts |-> f])
 WriteWith(i, callfmt) == /\ i \in DOMAIN insts
+                         /\ script' = Append(script, [op |-> "Write", i |-> i, callfmt |-> callfmt])
                          /\ used' = IF callfmt # "" THEN callfmt ELSE heap[insts[i].obj].format
                          /\ UNCHANGED <<heap, insts>>
-Next == (\E f \in GoodOptSets : New(f)) \/ (\E i \in 1..MaxInst, c \in {"", "cdx15", "spdx23"} : WriteWith(i, c))
+Step == (\E f \in GoodOptSets : New(f)) \/ (\E i \in 1..MaxInst, c \in {"", "cdx15", "spdx23"} : WriteWith(i, c))
+Finish == Len(script) = MaxSteps + 1 /\ script' = Append(script, [op |-> "End"]) /\ UNCHANGED <<heap, insts, used>>
+Next == (Len(script) <= MaxSteps /\ Step) \/ Finish
 Spec == Init /\ [][Next]_vars
+PrintScript == Len(script) = MaxSteps + 2 => PrintT(<<"SCRIPT", ToJson(script)>>)
 
 ConfigOf(i) == heap[insts[i].obj]
 Isolation == \A i \in DOMAIN insts : ConfigOf(i) = Over(Defaults, insts[i].own)
